@@ -95,6 +95,7 @@ class Module:
         s.funcs = {}     # name -> Func
         s.decls = {}
         s.order = []
+        s.meta = {}      # !N -> metadata text (line tables: DILocation / DISubprogram / DILexicalBlock / DIFile)
 
     def parse_type(s, p):
         k, v = p.next()
@@ -243,6 +244,11 @@ def parse_module(path):
                 m.globals[name] = (ty, init, const)
                 m.order.append(name)
                 continue
+            if c0 == '!' and ' = ' in st:
+                k_, v_ = st.split(' = ', 1)
+                if 'DILocation' in v_ or 'DIFile' in v_ or 'DISubprogram' in v_ or 'DILexicalBlock' in v_:
+                    m.meta[k_] = v_
+                continue
             if st.startswith('declare '):
                 toks = tokenize(st)
                 for k, v in toks:
@@ -295,10 +301,32 @@ def parse_module(path):
             # implicit entry label = number of unnamed params
             curblk = '%' + str(sum(1 for (_t, _n) in cur.params if re.fullmatch(r'%\d+', _n)))
             cur.blocks[curblk] = []; cur.order.append(curblk)
-        if st.startswith('switch ') and not st.rstrip().endswith(']'):
+        if st.startswith('switch ') and ']' not in st:
             while True:
                 nxt = lines[i].strip(); i += 1
                 st += ' ' + nxt
-                if nxt.endswith(']'): break
+                if nxt.startswith(']'): break          # "]" possibly followed by ", !dbg !N"
         cur.blocks[curblk].append(tokenize(st))
     return m
+
+
+def source_location(m, dbg_id):
+    """(file, line) of a !dbg id from the line tables, or None"""
+    import re as _re
+    t = m.meta.get(dbg_id)
+    if not t or 'DILocation' not in t: return None
+    ml = _re.search(r'line: (\d+)', t); line = int(ml.group(1)) if ml else 0
+    sc = _re.search(r'scope: (!\d+)', t)
+    cur = sc.group(1) if sc else None
+    for _ in range(32):
+        tt = m.meta.get(cur)
+        if not tt: return None
+        mf = _re.search(r'file: (!\d+)', tt)
+        if mf:
+            ft = m.meta.get(mf.group(1), '')
+            fn = _re.search(r'filename: "([^"]*)"', ft)
+            return (fn.group(1) if fn else '?', line)
+        sc = _re.search(r'scope: (!\d+)', tt)
+        if not sc: return None
+        cur = sc.group(1)
+    return None
